@@ -31,14 +31,19 @@ RECURSIVE GCD(_, _)
 GCD(a, b) == IF b = 0 THEN a ELSE GCD(b, a % b)
 Abs(n) == IF n < 0 THEN -n ELSE n
 Norm(a) == LET g == GCD(Abs(a[1]), a[2]) IN IF g = 0 THEN a ELSE <<a[1] \div g, a[2] \div g>>
-Mul(a, b) == Norm(<<a[1] * b[1], a[2] * b[2]>>)
-Add(a, b) == Norm(<<a[1] * b[2] + b[1] * a[2], a[2] * b[2]>>)
+\* cross-cancel before multiplying (TLC integers are 32-bit)
+Mul(a, b) == LET g1 == GCD(Abs(a[1]), b[2])  g2 == GCD(Abs(b[1]), a[2])
+                 h1 == IF g1 = 0 THEN 1 ELSE g1  h2 == IF g2 = 0 THEN 1 ELSE g2
+             IN Norm(<<(a[1] \div h1) * (b[1] \div h2), (a[2] \div h2) * (b[2] \div h1)>>)
+Add(a, b) == LET g == GCD(a[2], b[2]) IN Norm(<<a[1] * (b[2] \div g) + b[1] * (a[2] \div g), (a[2] \div g) * b[2]>>)
 Neg(a) == <<-a[1], a[2]>>
 Sub(a, b) == Add(a, Neg(b))
-Div(a, b) == Norm(IF b[1] > 0 THEN <<a[1] * b[2], a[2] * b[1]>> ELSE <<-(a[1] * b[2]), -(a[2] * b[1])>>)   \* b # 0
-Eq(a, b) == a[1] * b[2] = b[1] * a[2]
-Lt(a, b) == a[1] * b[2] < b[1] * a[2]
-Le(a, b) == a[1] * b[2] <= b[1] * a[2]
+Inv(b) == IF b[1] > 0 THEN <<b[2], b[1]>> ELSE <<-b[2], -b[1]>>                                           \* b # 0
+Div(a, b) == Mul(a, Inv(b))
+\* comparisons through the sign of the (normalised) difference: no cross-multiplication of large terms
+Eq(a, b) == Sub(a, b)[1] = 0
+Lt(a, b) == Sub(a, b)[1] < 0
+Le(a, b) == Sub(a, b)[1] <= 0
 MinR(a, b) == IF Le(a, b) THEN a ELSE b
 MaxR(a, b) == IF Le(a, b) THEN b ELSE a
 Zero == R(0)
@@ -155,6 +160,81 @@ Transpose(rows) == [j \in 1..Len(rows[1]) |-> [t \in 1..Len(rows) |-> rows[t][j]
 ConstituentModels == {"LumpedConstituentRouting", "ConstituentDecay", "StorageDissolvedDecay", "StorageTrapAll", "InstreamCoarseSediment",
                       "InstreamParticulateNutrient"}
 
+\* ---- generation models whose kernels are rational for INTEGER power factors (C16) ------------------------
+RECURSIVE IPow(_, _)
+IPow(a, n) == IF n = 0 THEN One ELSE Mul(a, IPow(a, n - 1))
+DAYS_PER_YEAR == Q(1461, 4)
+GRAVITY == Q(981, 100)
+TONNES_TO_KG == R(1000)
+PCT(x) == Div(x, R(100))
+
+\* BankErosion: params riparianVegPercent, maxRiparianVegEffectiveness, soilErodibility, bankErosionCoeff, linkSlope,
+\* bankFullFlow, bankMgtFactor, sedBulkDensity, bankHeight, linkLength, dailyFlowPowerFactor (integer),
+\* longTermAvDailyFlow, soilPercentFine, durationInSeconds; inputs downstreamFlowVolume, totalVolume
+BankMeanAnnual(p) ==
+    LET erod == Mul(Sub(One, MinR(PCT(p[1]), PCT(p[2]))), PCT(p[3]))
+        retreat == Mul(Mul(Mul(Mul(Mul(p[4], R(1000)), GRAVITY), p[5]), p[6]), p[7])
+        mass == Mul(Mul(p[8], p[9]), p[10])
+    IN Mul(Mul(mass, retreat), erod)
+BankTotal(p, flow, vol) ==
+    LET ldf == IF Le(vol, Zero) \/ Le(flow, Zero) \/ Le(p[12], Zero) THEN Zero
+               ELSE Div(IPow(Mul(flow, p[14]), p[11][1]), p[12])
+    IN Div(Mul(Div(Mul(BankMeanAnnual(p), ldf), DAYS_PER_YEAR), TONNES_TO_KG), p[14])
+
+\* DynamicSednetGully / DynamicSednetGullyAlt: params YearDisturbance, GullyEndYear, Area, averageGullyActivityFactor,
+\* GullyAnnualAverageSedimentSupply, GullyPercentFine, managementPracticeFactor, longtermRunoffFactor,
+\* dailyRunoffPowerFactor (integer), sdrFine, sdrCoarse, timeStepInSeconds; inputs quickflow, year, AnnualRunoff, annualLoad
+\* result: <<fineLoad, coarseLoad, generatedFine, generatedCoarse>>
+GullyStep(alt, p, q, yr, annualRunoff, annualLoad) ==
+    IF Lt(yr, p[1]) \/ IsZero(q) \/ IsZero(annualRunoff) THEN <<Zero, Zero, Zero, Zero>>
+    ELSE LET af == IF Lt(p[2], yr) THEN p[4] ELSE One
+             propFine == PCT(p[6])
+             gen == IF alt
+                    THEN LET depth == Mul(Mul(Div(q, p[3]), R(1000)), R(86400))
+                             supply == Mul(p[7], annualLoad)
+                         IN << Mul(Mul(Mul(Div(depth, annualRunoff), propFine), af), supply),
+                               Mul(Mul(Div(depth, annualRunoff), Sub(One, propFine)), supply) >>
+                    ELSE LET pw == IF p[9][1] <= 0 THEN 1 ELSE p[9][1]
+                             drf == IF Lt(Zero, p[8]) THEN Div(IPow(q, pw), p[8]) ELSE One
+                             base == Mul(Mul(Div(One, DAYS_PER_YEAR), drf), Mul(Mul(p[5], p[7]), TONNES_TO_KG))
+                         IN << Mul(Mul(base, propFine), af), Mul(base, Sub(One, propFine)) >>
+             gf == Div(gen[1], p[12])
+             gc == Div(gen[2], p[12])
+         IN << Mul(gf, PCT(p[10])), Mul(gc, PCT(p[11])), gf, gc >>
+
+\* SednetParticulateNutrientGeneration: params area, nutSurfSoilConc, hillDeliveryRatio, Nutrient_Enrichment_Ratio,
+\* nutSubSoilConc, Nutrient_Enrichment_Ratio_Gully, gullyDeliveryRatio, nutrientDWC, Do_P_CREAMS_Enrichment;
+\* inputs fine/coarse sheet, fine/coarse gully generated kg, slowflow; outputs quick, slow, total, hillslope, gully
+ParticulateGen(p, a, b, cc, d, slow) ==
+    LET hill == Mul(Mul(Mul(Add(a, b), p[2]), p[4]), PCT(p[3]))
+        gully == Mul(Mul(Mul(Add(cc, d), p[5]), p[6]), PCT(p[7]))
+        quick == Add(hill, gully)
+        sl == Mul(Mul(slow, p[8]), MG_L_TO_KG_M3)
+    IN << quick, sl, Add(quick, sl), hill, gully >>
+\* USLEFineSedimentGeneration: params S, P, RainThreshold, Alpha, Beta (integer here), Eta, A1, A2, A3, DWC, avK, avLS, avFines,
+\* area, maxConc, usleHSDRFine, usleHSDRCoarse, timeStepInSeconds; inputs quickflow, baseflow, rainfall, KLSC, KLSC_Fine,
+\* CovOrCFact, dayOfYear (= 15 on the grid: the seasonal term cos(2 pi (doy - 15) / 365) is then exactly 1)
+\* outputs quickLoadFine, slowLoadFine, quickLoadCoarse, slowLoadCoarse, totalFineLoad, totalCoarseLoad, generatedLoadFine, generatedLoadCoarse
+USLEStep(p, qf, sf, rain, klsc, klscFine) ==
+    LET loadS == Mul(Mul(p[10], sf), MG_L_TO_KG_M3)
+        Rr == IF Lt(p[3], rain) THEN Mul(Mul(p[4], Add(One, p[6])), IPow(rain, p[5][1])) ELSE Zero
+        tot == Mul(Rr, klsc)
+        fine == Mul(Rr, klscFine)
+        coarse == Sub(tot, fine)
+        toKg == Mul(Mul(p[14], Q(1, 10000)), TONNES_TO_KG)              \* area [m2] -> ha, t -> kg
+        perL == Mul(qf, Q(432, 5))                                      \* m3/s -> ML/day (86.4); mg per kg and L per ML cancel
+        active == Lt(Zero, qf) /\ Lt(Zero, tot)
+        fineMass == Mul(fine, toKg)
+        conc == IF active THEN Div(fineMass, perL) ELSE Zero
+        adj == IF active /\ Lt(p[15], conc) THEN Div(Mul(p[15], perL), fineMass) ELSE One
+        genFine == IF active THEN Mul(Mul(fine, adj), toKg) ELSE Zero
+        genCoarse == IF active THEN Mul(Mul(coarse, adj), toKg) ELSE Zero
+        loadQ == Div(Mul(genFine, PCT(p[16])), p[18])
+        coarseQ == Div(Mul(genCoarse, PCT(p[17])), p[18])
+    IN << loadQ, loadS, coarseQ, Zero, Add(loadQ, loadS), coarseQ, Div(genFine, p[18]), Div(genCoarse, p[18]) >>
+
+GeneratorModels == {"BankErosion", "DynamicSednetGully", "DynamicSednetGullyAlt", "SednetParticulateNutrientGeneration", "USLEFineSedimentGeneration"}
+
 \* ---- the kernels: Out(case) = sequence (per output variable) of series ----
 T(cs) == Len(cs.inputs[1])
 Series(cs, f(_)) == [t \in 1..T(cs) |-> f(t)]
@@ -199,6 +279,15 @@ Out(cs) ==
       [] m = "Muskingum" ->                  \* params K, X, DeltaT; states S, prevInflow (total), prevOutflow
             << MuskOut(cs) >>
       [] m \in ConstituentModels -> Transpose(ConstituentRun(cs).rows)
+      [] m = "BankErosion" ->
+            << [t \in 1..T(cs) |-> Mul(BankTotal(p, in[1][t], in[2][t]), PCT(p[13]))],
+               [t \in 1..T(cs) |-> Mul(BankTotal(p, in[1][t], in[2][t]), Sub(One, PCT(p[13])))] >>
+      [] m \in {"DynamicSednetGully", "DynamicSednetGullyAlt"} ->
+            [k \in 1..4 |-> [t \in 1..T(cs) |-> GullyStep(m = "DynamicSednetGullyAlt", p, in[1][t], in[2][t], in[3][t], in[4][t])[k]]]
+      [] m = "USLEFineSedimentGeneration" ->
+            [k \in 1..8 |-> [t \in 1..T(cs) |-> USLEStep(p, in[1][t], in[2][t], in[3][t], in[4][t], in[5][t])[k]]]
+      [] m = "SednetParticulateNutrientGeneration" ->
+            [k \in 1..5 |-> [t \in 1..T(cs) |-> ParticulateGen(p, in[1][t], in[2][t], in[3][t], in[4][t], in[5][t])[k]]]
 
 \* final states (only for the two stateful models here)
 St(cs) ==
@@ -268,6 +357,26 @@ Cases(m) ==
                pc \in {R(0), Q(1, 2)}, dt \in {R(1), R(4)}, up \in {R(0), R(4)}, lat \in {R(0), R(2)}, v \in Vols, q \in {R(0), R(2)},
                sbe \in {R(0), R(4)}, ls \in {R(0), R(1)}, fpf \in {R(0), Q(1, 2), R(2)}, chf \in {Q(-1, 4), R(0), Q(1, 2), R(1)},
                s0 \in {R(0), R(6)}, s1 \in {R(8)}}
+      [] m = "BankErosion" ->       \* one timestep; integer power factors 0, 1, 2; not-configured long-term flow; zero flow / zero volume
+            {[model |-> m, params |-> <<rv, R(50), R(40), Q(1, 10), Q(1, 100), R(5), R(1), R(2), R(3), R(10), pw, lt, pf, dt>>,
+              inputs |-> <<<<fl>>, <<vol>>>>, states |-> <<>>] :
+               rv \in {R(0), R(30), R(80)}, pw \in {R(0), R(1), R(2)}, lt \in {R(0), R(4)}, pf \in {R(0), R(25), R(100)}, dt \in {R(1), R(2)},
+               fl \in {R(0), R(3), Q(1, 2)}, vol \in {R(0), R(7)}}
+      [] m \in {"DynamicSednetGully", "DynamicSednetGullyAlt"} ->
+            {[model |-> m, params |-> <<R(2000), R(2010), R(5), af, R(6), pf, mp, lt, pw, R(50), R(20), dt>>,
+              inputs |-> <<<<q>>, <<yr>>, <<ar>>, <<al>>>>, states |-> <<>>] :
+               af \in {Q(1, 2), R(2)}, pf \in {R(0), R(25)}, mp \in {R(1), Q(1, 2)}, lt \in {R(0), R(2)}, pw \in {R(0), R(1), R(2)}, dt \in {R(1), R(4)},
+               q \in {R(0), R(3), Q(1, 2)}, yr \in {R(1999), R(2005), R(2015)}, ar \in {R(0), R(8)}, al \in {R(0), R(9)}}
+      [] m = "SednetParticulateNutrientGeneration" ->
+            {[model |-> m, params |-> <<R(100), c1, R(50), R(2), c2, R(3), R(20), dw, cr>>,
+              inputs |-> <<<<a>>, <<b>>, <<cc>>, <<d>>, <<sl>>>>, states |-> <<>>] :
+               c1 \in {R(0), Q(1, 2)}, c2 \in {R(0), R(2)}, dw \in {R(0), R(4)}, cr \in {R(0), R(1)},
+               a \in {R(0), R(4)}, b \in {R(0), R(2)}, cc \in {R(0), R(6)}, d \in {R(0), R(2)}, sl \in {R(0), R(3)}}
+      [] m = "USLEFineSedimentGeneration" ->
+            {[model |-> m, params |-> <<R(0), R(0), th, al, be, et, R(1), R(1), R(1), dw, R(1), R(1), R(50), R(20000), mc, R(50), R(20), dt>>,
+              inputs |-> <<<<qf>>, <<sf>>, <<rn>>, <<kl>>, <<kf>>, <<R(1)>>, <<R(15)>>>>, states |-> <<>>] :
+               th \in {R(0), R(5)}, al \in {Q(1, 2)}, be \in {R(1), R(2)}, et \in {R(0), Q(1, 2)}, dw \in {R(0), R(3)}, mc \in {R(1), R(1000)}, dt \in {R(1), R(4)},
+               qf \in {R(0), Q(1, 2), R(2)}, sf \in {R(0), R(2)}, rn \in {R(0), R(4), R(8)}, kl \in {R(0), Q(1, 2)}, kf \in {R(0), Q(1, 4)}}
       [] m = "Lag" -> UNION {{[model |-> m, params |-> <<R(k)>>, inputs |-> <<s>>, states |-> b] : s \in SeriesOf(Vals, n), b \in SeriesOf({R(1), R(7)}, k)} :
                               k \in 0..(TTR + 2), n \in 1..TTR}
       [] m = "Muskingum" -> {[model |-> m, params |-> p, inputs |-> <<s, u>>, states |-> <<R(0), pi, po>>] :
@@ -302,6 +411,34 @@ ConcentrationLinear == c.model = "FixedConcentration" => AllT(LAMBDA t : Eq(Mul(
 \* the two concentration generators agree (kg/s = m3/s * mg/L * 1e-3)
 GeneratorsAgree == c.model = "SednetDissolvedNutrientGeneration" =>
                      AllT(LAMBDA t : Eq(O[1][t], Mul(Mul(In[1][t], c.params[1]), MG_L_TO_KG_M3)))
+\* C16, generators with (here integer) power factors
+\* fine + coarse material split by the model's fine fraction; delivered load = generated load x delivery ratio
+BankSplit == c.model = "BankErosion" => AllT(LAMBDA t :
+                 LET tot == Add(O[1][t], O[2][t]) IN Eq(O[1][t], Mul(tot, PCT(c.params[13]))))
+GullyDelivered == c.model \in {"DynamicSednetGully", "DynamicSednetGullyAlt"} => AllT(LAMBDA t :
+                 /\ Eq(O[1][t], Mul(O[3][t], PCT(c.params[10]))) /\ Eq(O[2][t], Mul(O[4][t], PCT(c.params[11])))
+                 \* before the gullies stop being active the generated material is split by the fine fraction
+                 /\ (Le(In[2][t], c.params[2]) => Eq(O[3][t], Mul(Add(O[3][t], O[4][t]), PCT(c.params[6])))))
+GenTotals == /\ (c.model = "SednetParticulateNutrientGeneration" => AllT(LAMBDA t :
+                     /\ Eq(O[3][t], Add(O[1][t], O[2][t])) /\ Eq(O[1][t], Add(O[4][t], O[5][t]))))
+             /\ (c.model = "USLEFineSedimentGeneration" => AllT(LAMBDA t :
+                     /\ Eq(O[5][t], Add(O[1][t], O[2][t])) /\ Eq(O[6][t], Add(O[3][t], O[4][t]))
+                     \* delivered = generated x hillslope delivery ratio
+                     /\ Eq(O[1][t], Mul(O[7][t], PCT(c.params[16]))) /\ Eq(O[3][t], Mul(O[8][t], PCT(c.params[17])))))
+\* every generated load is zero when its driver is zero and non-negative when its drivers are
+GenZeroDriver == /\ (c.model = "BankErosion" => AllT(LAMBDA t : (IsZero(In[1][t]) \/ IsZero(In[2][t])) => (IsZero(O[1][t]) /\ IsZero(O[2][t]))))
+                 /\ (c.model \in {"DynamicSednetGully", "DynamicSednetGullyAlt"} =>
+                        AllT(LAMBDA t : IsZero(In[1][t]) => \A k \in 1..4 : IsZero(O[k][t])))
+                 \* drivers of USLE: quick flow and erosive rainfall (above the threshold); slow flow for the slow load
+                 /\ (c.model = "USLEFineSedimentGeneration" =>
+                        AllT(LAMBDA t : /\ ((IsZero(In[1][t]) \/ Le(In[3][t], c.params[3])) => (IsZero(O[1][t]) /\ IsZero(O[3][t]) /\ IsZero(O[7][t]) /\ IsZero(O[8][t])))
+                                        /\ (IsZero(In[2][t]) => IsZero(O[2][t]))))
+                 /\ (c.model = "SednetParticulateNutrientGeneration" =>
+                        AllT(LAMBDA t : /\ (IsZero(Add(In[1][t], In[2][t])) => IsZero(O[4][t]))
+                                        /\ (IsZero(Add(In[3][t], In[4][t])) => IsZero(O[5][t]))
+                                        /\ (IsZero(In[5][t]) => IsZero(O[2][t]))))
+GenNonNegative == c.model \in GeneratorModels => \A k \in 1..Len(O) : AllT(LAMBDA t : Le(Zero, O[k][t]))
+
 \* C12: mass entering + initially stored = mass leaving downstream + trapped/decayed/deposited + finally stored
 \* (+ what the documented minimum-volume flush discards); nothing negative for non-negative inputs
 DT == CASE c.model = "LumpedConstituentRouting" -> c.params[3] [] c.model = "ConstituentDecay" -> c.params[3]
